@@ -33,9 +33,8 @@ ASSUMPTIONS = [
     'SimPool runs task bodies atomically in-process with pickled arguments/results',
     'the tiling API is called with the iterator arguments the command line builds for --multiprocess (captured from the real argument handling)',
 ]
-COMPONENTS_NOTE = 'tagging.datetime is the simulated task clock in TL lifetimes'
 COMPONENTS = {'real': tc.TAGGER_REAL + ['blacklisted_binning_contigs / blacklisted_binning / fill_range', 'bp_chunked', 'cut-site ownership filter in run_tagging_task'],
-              'stub': tc.TAGGER_STUB}
+              'stub': tc.TAGGER_STUB + ['simulated task clock bound to tagging.datetime in TL lifetimes (1 ms per reading, one stall longer than the limit)']}
 REQUIRED_PROBES = ['segment_timed_out_and_reported', 'forked_worker_processes', 'fragment_at_contig_start', 'contig_with_only_placed_unmapped_reads', 'tiling_lifetime', 'molecule_straddles_tile_edge', 'site_on_tile_boundary', 'delivery_order_not_submission_order', 'multi_job_tiling', 'margin_larger_than_segment', 'unplaced_reads']
 
 
